@@ -165,7 +165,14 @@ def gen_history(rng, name, cap, n_msgs):
                 sys_unit(['ERR', 'COUN']); events.append(('count',))
         msgs.append(';'.join(units) + '\n')
         if rng.random() < 0.15:      # a parse-level fault: the rest of that message is skipped
-            msgs.append('NOPE;OK\n'); events.append(('err', '-113'))
+            r2 = rng.random()
+            if r2 < 0.4:
+                msgs.append('NOPE;OK\n'); events.append(('err', '-113'))
+            elif r2 < 0.7:
+                # a unit below SYST:ERR first, then the fault: the next message must start at the root again
+                msgs.append('SYST:ERR:COUN?;NOPE;OK\n'); events.append(('count',)); events.append(('err', '-113'))
+            else:
+                msgs.append('SYST:ERR?;BOGUS 1 2;OK\n'); events.append(('next',)); events.append(('err', '-113'))
     return msgs, events
 
 
@@ -183,7 +190,7 @@ def cases(tier, rng, ifaces):
     out.append(Case('ERRTAB', None, {'kind': 'ERRTAB'}))
     n_hist = 300 if tier == 'quick' else 3000
     for i in range(n_hist):
-        name, cap = rng.choice([('q1', 1), ('q2', 2), ('q3', 3), ('q4', 4), ('k1', 3)])
+        name, cap = rng.choice([('q1', 1), ('q2', 2), ('q3', 3), ('q4', 4), ('k1', 3), ('q10', 10)])
         msgs, events = gen_history(rng, name, cap, rng.randint(1, 8))
         if rng.random() < 0.5:
             op = f"RUN {name} std " + '|'.join(hx(m) for m in msgs)
@@ -197,6 +204,11 @@ def cases(tier, rng, ifaces):
                 k = rng.randint(1, 9); sizes.append(k); left -= k
             op = f"PROC {name} 256 {hx(stream)} {','.join(map(str, sizes))}"
         out.append(Case(op, history_oracle, {'cap': cap, 'events': events, 'kind': 'HISTORY'}))
+    # every count from 0 to 12 on the capacity-10 queue (one and two digits, the full queue, overflow)
+    for nfail in range(0, 13):
+        msgs = ['FAIL\n'] * nfail + ['SYST:ERR:COUN?\n', 'SYST:ERR?\n', 'SYST:ERR:COUN?\n']
+        events = [('err', '-200')] * nfail + [('count',), ('next',), ('count',)]
+        out.append(Case("RUN q10 std " + hx(''.join(msgs)), history_oracle, {'cap': 10, 'events': events, 'kind': 'HISTORY-count'}))
     # a queue that holds more entries than a byte can count (interface q300, capacity 300): counts around 256 and around the capacity
     for nfail in ([255, 256, 257, 300, 303] if tier == 'quick' else [254, 255, 256, 257, 258, 299, 300, 301, 310, 511, 512, 600]):
         msgs = ['FAIL\n'] * nfail + ['SYST:ERR:COUN?\n', 'SYST:ERR?\n', 'SYST:ERR:COUN?;:SYST:ERR:COUN?\n']
